@@ -314,4 +314,10 @@ equals the copy kept in `Model/ConfirmShape.lean`. -/
 theorem C08_copy_file_shape : Generated.copyFileShape = copyFileShapeRef := by rfl
 
 
+/-- **The doer's `exec_command` still has the shape the doer model was written against** (a pin: the normalised text of the function in doer.rs, extracted on
+every run, equals the copy in `Model/ConfirmShape.lean`).  The doer model is tied to the real doer by the L3 / `fsx` streams; this makes every edit of the
+function visible, also where the streams do not reach. -/
+theorem C08_exec_command_shape : Generated.execCommandShape = execCommandShapeRef := by rfl
+
+
 end Rj.C08
